@@ -295,6 +295,13 @@ RecInst(name) ==
               [] m = "v2/model" -> <<Let("node", Rec("r", Obj(<<Prop("text", Prim("int")), Prop("next", Arr(Var("r")))>>)))>>
               [] OTHER -> <<UseAs("v1/model", "a"), UseAs("v2/model", "b"),
                             Body(Obj(<<Prop("one", QVar("a", "node")), Prop("two", QVar("b", "node"))>>))>>]]
+    \* a declaration cycle closed by a reference that comes AFTER a parenthesised rec expression in the same declaration
+    [] name = "rec-then-cycle" -> one(<<Let("a", Obj(<<Prop("tags", Rec("t", Obj(<<Prop("name", Prim("str")), Prop("sub", Arr(Var("t")))>>))), Prop("b", Var("b"))>>)),
+                                        Let("b", Obj(<<Prop("a", Var("a")), Prop("next", Var("b"))>>)), Body(Var("a"))>>)
+    [] name = "rec-then-cycle-2" -> one(<<Let("a", Obj(<<Prop("tags", Rec("t", Obj(<<Prop("sub", Arr(Var("t")))>>))), Prop("b", Var("b"))>>)),
+                                          Let("b", Obj(<<Prop("a", Var("a"))>>)), Body(Var("a"))>>)
+    [] name = "rec-then-fn-cycle" -> one(<<Decl("f", <<"x">>, Obj(<<Prop("tags", Rec("t", Obj(<<Prop("v", Var("x")), Prop("sub", Arr(Var("t")))>>))), Prop("g", App(Var("g"), <<Var("x")>>))>>)),
+                                           Decl("g", <<"x">>, App(Var("f"), <<Var("x")>>)), Body(App(Var("f"), <<Prim("str")>>))>>)
     [] name = "imported-fn" -> [main |-> "m1", mods |-> [m \in {"m1", "g"} |->
                                   IF m = "g" THEN <<FRec>>
                                   ELSE <<Use("g"), Body(Obj(<<Prop("a", App(Var("f"), <<Prim("num")>>)), Prop("b", App(Var("f"), <<Prim("str")>>))>>))>>]]
@@ -306,7 +313,7 @@ RecInst(name) ==
                                    Res(Var("a")), Res(Var("b"))>>)
     [] name = "mutual" -> one(<<Let("a", Obj(<<Prop("b", Var("b"))>>)), Let("b", Obj(<<Prop("a", Var("a"))>>)), Body(Obj(<<Prop("x", Var("a")), Prop("y", Var("b"))>>))>>)
 RecInstNames == {"nested-fn-two-args", "nested-fn-twice-two-args", "fn-once", "fn-twice", "fn-same-arg-twice", "fn-thrice", "top-twice", "nested-fn", "rec-in-rec", "decl-and-rec", "fn-of-rec",
-                 "same-binder-name", "imported-fn", "same-file-name-decl", "same-file-name-rec", "ref-decl-twice", "mutual", "rel-self", "rel-rec", "rel-domain", "rel-mutual"}
+                 "same-binder-name", "imported-fn", "same-file-name-decl", "same-file-name-rec", "rec-then-cycle", "rec-then-cycle-2", "rec-then-fn-cycle", "ref-decl-twice", "mutual", "rel-self", "rel-rec", "rel-domain", "rel-mutual"}
 
 \* ---- Ranges, Uris, Xfers: the parts of a resource ---------------------------------------------------
 CntOf(st, md, body) ==
